@@ -355,6 +355,22 @@ def replay_metamorphic(inputs):
     if np.abs(d - 1.0).min() < 1e-6 or (np.sort(d, axis=-1)[..., 0] < 1.0).sum() != ((d < 1.0).sum()):
         return {'reproduced': False, 'detail': 'degenerate system skipped', 'skipped': True}
     species = list(traj.species)
+
+    def tree_loses_a_pair(frac_atoms, frac_sites):
+        # known finding C02-kdtree-degenerate-cell: the periodic KD-tree, asked directly, loses a pair that lies strictly inside a search radius used
+        # below (1.0 / 0.55 with cut-off 1.0; per-label 0.9 .. 1.1 with cut-off 1.1).  Such a system is an instance of the recorded finding in one
+        # representation and not in another; it is left out, like the degenerate systems above.
+        from verif.props.c02 import kdtree_direct_pairs
+        flat = np.asarray(frac_atoms).reshape(-1, 3)
+        dd = lat.get_all_distances(np.asarray(frac_sites), flat)
+        for R_, cut_ in ((1.0, 1.0), (0.55, 1.0), (0.9, 1.1), (1.1, 1.1)):
+            pairs_ = kdtree_direct_pairs(lat.matrix, flat, frac_sites, R_, cut_)
+            for k_, j_ in np.argwhere(dd < R_ - 1e-4):
+                if (int(k_), int(j_)) not in pairs_:
+                    return True
+        return False
+    if tree_loses_a_pair(pos[:, li], sp):
+        return {'reproduced': False, 'detail': 'system skipped: instance of the known finding C02-kdtree-degenerate-cell (the periodic KD-tree itself loses a pair)', 'skipped': True}
     base, tr0 = _analyse(traj, sites)
     bad = []
 
@@ -384,6 +400,8 @@ def replay_metamorphic(inputs):
     compare(o, 'rotation')
     # (b) translation of everything by a fractional vector, wrapping through the faces
     uvec = rng.random(3) * 3 - 1
+    if tree_loses_a_pair(np.mod(pos[:, li] + uvec, 1), np.mod(sp + uvec, 1)):
+        return {'reproduced': False, 'detail': 'system skipped: the translated representation is an instance of the known finding C02-kdtree-degenerate-cell', 'skipped': True}
     o, _ = _analyse(mk(np.mod(pos + uvec, 1), lat.matrix), Structure(lat, [s.specie for s in sites], np.mod(sp + uvec, 1), labels=[s.label for s in sites]))
     compare(o, f'translation by {np.round(uvec, 3).tolist()}')
     # (c) permutation of the atoms (diffusing atoms among themselves, so that atom indices of the filtered trajectory are relabelled)
